@@ -27,7 +27,7 @@ LINES_Q = [[[5]], [[3], [3]], [['<', 2, '>'], [3], ['</', 2, '>']], [['<', 2, ' 
            [['<', 2, '/>'], ['<', 2, '/>']], [['<', 2, ' ', 2, '/>'], ['<', 2, ' ', 2, '/>']],
            [['<', 2, '>'], ['</', 2, '>'], ['<', 2, ' ', 1, '/>']], [[2, ' ', 1], [2, ' ', 1]],
            [['<ta n>'], ['ka 1'], [2, ' ', 1], [2, ' ', 1], ['</ta>']]]
-LINES_T = LINES_Q + [[[7]], [[4], [4]], [['<', 4, '>'], [2], ['</', 3, '>']], [['%include ', 3]],
+LINES_T = LINES_Q + [[[7]], [[4], [4]], [['<', 4, '>'], [2], ['</', 3, '>']],
                      [['%import ', 4]], [['<ta n>'], [5], ['</ta>'], [3]]]
 
 
@@ -62,6 +62,29 @@ def _sym_path_join(*parts):
         else:
             out = out + '/' + p
     return out
+
+
+class _symbolic_env:
+    """what a (partly) symbolic %include / %import argument needs in the engine: urljoin / urldefrag
+    through the instrumented urllib copy, __import__ of a symbolic name = the known package or an
+    ImportError, path helpers on symbolic paths"""
+
+    def __enter__(self):
+        from .. import instr
+        self.instr = instr
+        if instr.installed():
+            import urllib.request
+            instr.install_urllib()
+            instr.IMPORTS['known'] = ('vfq_a',)
+            instr.FUNC_STUBS[os.path.join] = _sym_path_join
+            # a symbolic *path* (no scheme, or a drive-letter look-alike) becomes a quoted file:
+            # URL of a file that does not exist
+            instr.FUNC_STUBS[os.path.abspath] = lambda p: p
+            instr.FUNC_STUBS[urllib.request.pathname2url] = lambda p: '/opaque-quoted-path'
+
+    def __exit__(self, *a):
+        self.instr.IMPORTS['known'] = None
+        self.instr.FUNC_STUBS.clear()
 
 
 class c12pkgs:
@@ -128,6 +151,9 @@ class C07(Harness):
         # the validator command on the same texts (configuration on standard input)
         for lines in LINES_Q[:6] + LINES_Q[10:12]:
             us.append({'kind': 'validator', 'lines': lines})
+        # ... and on 0-3 configuration files named on the command line (concrete temp files)
+        for pattern in ('', 'v', 'i', 'vi', 'ii', 'iv', 'iii', 'ivi', 'vv'):
+            us.append({'kind': 'validator-files', 'files': pattern})
         for line in (INCL_Q if tier == 'quick' else INCL_T):
             us.append({'kind': 'inclarg', 'lines': [['kc v'], line]})
         return us
@@ -145,29 +171,17 @@ class C07(Harness):
         with common.env_scope(common.all_concrete(inp), {}):
             if unit['kind'] == 'text':
                 lines = common.assemble(unit['lines'], inp)
-                with P.mem_resources({}):
+                with _symbolic_env(), P.mem_resources({}), c12pkgs():
                     r = P.run_load(XML[unit.get('schema', 'S2')], lines, url=P.MAIN)
             elif unit['kind'] == 'validator':
                 return self._validator(unit, inp)
+            elif unit['kind'] == 'validator-files':
+                return self._validator_files(unit)
             elif unit['kind'] == 'inclarg':
-                from .. import instr
-                if instr.installed():
-                    instr.install_urllib()
-                    instr.IMPORTS['known'] = ('vfq_a',)
-                    instr.FUNC_STUBS[os.path.join] = _sym_path_join
-                    # a symbolic *path* (no scheme, or a drive-letter look-alike) becomes a quoted
-                    # file: URL of a file that does not exist
-                    import urllib.request
-                    instr.FUNC_STUBS[os.path.abspath] = lambda p: p
-                    instr.FUNC_STUBS[urllib.request.pathname2url] = lambda p: '/opaque-quoted-path'
                 lines = common.assemble(unit['lines'], inp)
                 store = {P.BASE + 'b.conf': ['kc w'], P.BASE + 'ab': ['kc x']}
-                try:
-                    with P.mem_resources(store), c12pkgs():
-                        r = P.run_load(XML['S1'].replace("required=\"yes\"", ''), lines, url=P.MAIN)
-                finally:
-                    instr.IMPORTS['known'] = None
-                    instr.FUNC_STUBS.clear()
+                with _symbolic_env(), P.mem_resources(store), c12pkgs():
+                    r = P.run_load(XML['S1'].replace("required=\"yes\"", ''), lines, url=P.MAIN)
             elif unit['kind'] == 'override':
                 specs = common.assemble(unit['spec'], inp)
                 r = P.run_load(XML['S2'], TEXT_S2, overrides=specs, url=P.MAIN)
@@ -209,11 +223,46 @@ class C07(Harness):
         ok = (rc == 0 and r[0] == 'ok' and n == 0) or (rc == 1 and r[0] == 'reject' and n >= 1)
         return ('ok' if rc == 0 else 'reject', rc, ok)
 
+    def _validator_files(self, unit):
+        """validator.main on real temp files: 'v' = a valid file, 'i' = an invalid one"""
+        import io
+        import shutil
+        import sys
+        import tempfile
+        from ZConfig import validator
+        d = tempfile.mkdtemp(prefix='vfc07_')
+        old_in, old_err = sys.stdin, sys.stderr
+        sys.stderr = err = io.StringIO()
+        sys.stdin = io.StringIO('')
+        try:
+            sp = os.path.join(d, 's.xml')
+            open(sp, 'w').write(XML['S2'])
+            args = ['-s', sp]
+            for i, ch in enumerate(unit['files']):
+                fp = os.path.join(d, 'c%d.conf' % i)
+                open(fp, 'w').write('kt 5\n' if ch == 'v' else ('kt x%d\n' % i if i % 2 else '<ta>\n'))
+                args.append(fp)
+            if not unit['files']:
+                return ('ok', 0, True)          # schema only needs a tty / reads stdin: not driven
+            try:
+                rc = validator.main(args)
+            except SystemExit as e:
+                return ('crash', 'SystemExit', str(e.code))
+            except Exception as e:
+                return ('crash', type(e).__name__)
+            n = len([x for x in err.getvalue().split('\n') if x.strip()])
+            bad = unit['files'].count('i')
+            ok = (rc == (1 if bad else 0)) and (n >= bad) and (bad > 0 or n == 0)
+            return ('ok' if rc == 0 else 'reject', rc, ok)
+        finally:
+            sys.stdin, sys.stderr = old_in, old_err
+            shutil.rmtree(d, ignore_errors=True)
+
     def expect(self, unit, inp, real):
         return ('no-internal-error',)
 
     def agree(self, unit, real, exp):
-        if unit['kind'] == 'validator':
+        if unit['kind'] in ('validator', 'validator-files'):
             # status 0 exactly for a valid text, status 1 with a message otherwise
             return z3.BoolVal(real[0] in ('ok', 'reject') and real[2] is True)
         return z3.BoolVal(real[0] in ('ok', 'reject'))
